@@ -246,7 +246,18 @@ pub fn gen_iface(rng: &mut Rng, cfg: &GenCfg) -> GIface {
     let n = rng.range(0, cfg.max_members);
     let mut names = vec![];
     let kinds: Vec<usize> = (0..n).map(|_| rng.below(3)).collect();
-    let member_names: Vec<String> = (0..n).map(|_| unique(rng, &mut names, type_name)).collect();
+    // Names are unique within a kind; a type, a method and an error may share one (`type Status`, `method Status`,
+    // `error Status` are three different members): every fifth member takes a name that another kind already uses.
+    let mut by_kind: [Vec<String>; 3] = [Vec::new(), Vec::new(), Vec::new()];
+    let member_names: Vec<String> = kinds
+        .iter()
+        .map(|k| {
+            let borrowed: Vec<String> = (0..3).filter(|o| o != k).flat_map(|o| by_kind[o].iter().cloned()).filter(|n| !by_kind[*k].contains(n)).collect();
+            let name = if !borrowed.is_empty() && rng.chance(1, 5) { rng.pick(&borrowed).clone() } else { unique(rng, &mut names, type_name) };
+            by_kind[*k].push(name.clone());
+            name
+        })
+        .collect();
     let customs: Vec<String> = kinds.iter().zip(&member_names).filter(|(k, _)| **k == 0).map(|(_, n)| n.clone()).collect();
     let mut members = Vec::new();
     for (k, name) in kinds.iter().zip(member_names) {
